@@ -68,7 +68,9 @@ class After(Condition):
         return True  # noqa: B901
 
     def __subscribe__(self, waiter: Coroutine, interrupt: CoreInterrupt):
-        self._ensure_trigger()
+        # a date that has passed is notified immediately and needs no trigger
+        if not self:
+            self._ensure_trigger()
         super().__subscribe__(waiter, interrupt)
 
     def __repr__(self):
@@ -168,10 +170,17 @@ class Moment(Condition):
         return True  # noqa: B901
 
     def __subscribe__(self, waiter: Coroutine, interrupt: CoreInterrupt):
-        self._transition.__subscribe__(waiter, interrupt)
+        if __USIM_STATE__.loop.time > self.date:
+            # the moment has passed and can never notify anymore
+            Notification.__subscribe__(self, waiter, interrupt)
+        else:
+            self._transition.__subscribe__(waiter, interrupt)
 
     def __unsubscribe__(self, waiter: Coroutine, interrupt: CoreInterrupt):
-        self._transition.__unsubscribe__(waiter, interrupt)
+        if (waiter, interrupt) in self._waiting:
+            Notification.__unsubscribe__(self, waiter, interrupt)
+        else:
+            self._transition.__unsubscribe__(waiter, interrupt)
 
     def __repr__(self):
         return f'{self.__class__.__name__}(date={self.date})'
